@@ -1,4 +1,184 @@
-import FsDb.Spec.Iso
-/-! # C01 (theorems under construction) -/
+import FsDb.Proofs.Refine
+import FsDb.Proofs.SpecInv
+import FsDb.Properties.C03
+/-!
+# C01 — Key-value round trip: what was stored is exactly what is read
+
+For histories of autocommit operations the specification (and by `Refine.run` the concrete model)
+behaves like the simplest possible key-value map.
+-/
 namespace FsDb.C01
+open FsDb Spec
+
+/-- the simplest possible specification: a map, plus the list of keys ever written -/
+structure KV where
+  m   : Key → Option Nat := fun _ => none
+  dom : List Key := []
+
+def KV.addDom (s : KV) (k : Key) : KV := if k ∈ s.dom then s else { s with dom := s.dom ++ [k] }
+
+/-- autocommit operations on the map -/
+def KV.step (s : KV) : Op → KV × Out
+  | .set _ k c => if k = "" then (s, .err .emptyKey)
+                  else (({ s with m := fun k' => if k' = k then some c else s.m k' } : KV).addDom k, .ok)
+  | .del _ k => (({ s with m := fun k' => if k' = k then none else s.m k' } : KV).addDom k, .ok)
+  | .get _ k => (s, match s.m k with | some c => .val c | none => .err .notFound)
+  | .keys _ => (s, .keys (Sys.sortKeys (s.dom.filter (fun k => (s.m k).isSome))))
+  | _ => (s, .ok)
+
+def KV.run (s : KV) : List Op → KV × List Out
+  | [] => (s, [])
+  | op :: ops => let r := s.step op; let r2 := r.1.run ops; (r2.1, r.2 :: r2.2)
+
+/-- operations issued outside any transaction (plus collection / cleanup at any position) -/
+def Op.auto : Op → Bool
+  | .set t _ _ | .del t _ | .get t _ | .keys t => t == mainTx
+  | .gc | .drain => true
+  | _ => false
+
+/-- relation between the transactional specification (no transaction open) and the map -/
+structure Rel (s : State) (kv : KV) : Prop where
+  noTx : s.open_ = []
+  dom : s.dom = kv.dom
+  val : ∀ k, C03.valueOf s k = kv.m k
+
+theorem rel_step {s : State} {kv : KV} (h : Rel s kv) (op : Op) (hop : Op.auto op = true) :
+    (Spec.step s op).2 = (kv.step op).2 ∧ Rel (Spec.step s op).1 (kv.step op).1 := by
+  have hctx : ctxOf s mainTx = some (.rc, 0, fun _ => none) := by simp [ctxOf]
+  have hvis : ∀ k, visible s .rc 0 (fun _ => none) k = committed s k := by intro k; simp [visible, newerS]
+  have hout : ∀ k, outOf (committed s k) = match kv.m k with | some c => .val c | none => .err .notFound := by
+    intro k
+    have := h.val k
+    unfold C03.valueOf at this
+    rw [← this]
+    cases hc : committed s k with
+    | none => rfl
+    | some v => obtain ⟨st, val⟩ := v; cases val <;> rfl
+  have hhas : ∀ k, hasValue (committed s k) = (kv.m k).isSome := by
+    intro k
+    have := h.val k
+    unfold C03.valueOf at this
+    rw [← this]
+    cases hc : committed s k with
+    | none => rfl
+    | some v => obtain ⟨st, val⟩ := v; cases val <;> rfl
+  have hwrite : ∀ k val, (Spec.write s mainTx k val).2 = .ok ∧
+      Rel (Spec.write s mainTx k val).1 (({ kv with m := fun k' => if k' = k then val else kv.m k' } : KV).addDom k) := by
+    intro k val
+    simp only [Spec.write, if_true]
+    refine ⟨trivial, ?_, ?_, ?_⟩
+    · simp [h.noTx]
+    · unfold Spec.addDom KV.addDom; simp only [h.dom]; split <;> rfl
+    · intro k'
+      have e1 : ∀ (x : State), C03.valueOf (Spec.addDom x k) k' = C03.valueOf x k' := by
+        intro x; unfold C03.valueOf committed; simp
+      have e2 : ∀ (x : KV), (x.addDom k).m = x.m := by intro x; unfold KV.addDom; split <;> rfl
+      rw [e1, e2]
+      by_cases hk : k' = k
+      · subst hk; simp [C03.valueOf, committed]
+      · simp only [C03.valueOf, committed, hk, if_false]; exact h.val k'
+  cases op with
+  | set t k c =>
+    have ht : t = mainTx := by simpa [Op.auto] using hop
+    subst ht
+    show (Spec.set s mainTx k c).2 = _ ∧ Rel (Spec.set s mainTx k c).1 _
+    unfold Spec.set KV.step
+    simp only [hctx, Option.isNone_some, Bool.false_eq_true, if_false]
+    by_cases hk : k = ""
+    · simp only [hk, if_true]; exact ⟨trivial, h⟩
+    · simp only [hk, if_false]; exact hwrite k (some c)
+  | del t k =>
+    have ht : t = mainTx := by simpa [Op.auto] using hop
+    subst ht
+    exact hwrite k none
+  | get t k =>
+    have ht : t = mainTx := by simpa [Op.auto] using hop
+    subst ht
+    refine ⟨?_, h⟩
+    show Spec.get s mainTx k = _
+    simp only [Spec.get, hctx, hvis, hout, KV.step]
+  | keys t =>
+    have ht : t = mainTx := by simpa [Op.auto] using hop
+    subst ht
+    refine ⟨?_, h⟩
+    show Spec.getKeys s mainTx = _
+    simp only [Spec.getKeys, hctx, hvis, hhas, KV.step, h.dom]
+  | gc =>
+    refine ⟨rfl, ?_⟩
+    show Rel (if s.open_.isEmpty then { s with clock := s.clock + 1 } else s) kv
+    split
+    · exact ⟨h.noTx, h.dom, h.val⟩
+    · exact h
+  | drain => exact ⟨rfl, h⟩
+  | begin _ _ => simp [Op.auto] at hop
+  | commit _ => simp [Op.auto] at hop
+  | rollback _ => simp [Op.auto] at hop
+  | reopen _ => simp [Op.auto] at hop
+  | tree => simp [Op.auto] at hop
+
+/-- For every history of autocommit Set/Delete/Get/GetKeys (with collection and cleanup anywhere)
+    the specification answers exactly like a plain map. -/
+theorem C01_map_spec (ops : List Op) (hops : ∀ op ∈ ops, Op.auto op = true) :
+    (Spec.run {} ops).2 = (KV.run {} ops).2 := by
+  have key : ∀ (s : State) (kv : KV), Rel s kv → (Spec.run s ops).2 = (kv.run ops).2 := by
+    induction ops with
+    | nil => intro s kv _; rfl
+    | cons op ops ih =>
+      intro s kv h
+      have hs := rel_step h op (hops op (by simp))
+      have := ih (fun o ho => hops o (List.mem_cons_of_mem _ ho)) _ _ hs.2
+      simp only [Spec.run, KV.run]
+      rw [hs.1, this]
+  exact key {} {} ⟨rfl, rfl, fun _ => rfl⟩
+
+/-- … and so does the concrete model (version lists, Badger records, content files, collector). -/
+theorem C01_map_concrete (ops : List Op) (hops : ∀ op ∈ ops, Op.auto op = true) :
+    (({} : Sys).run ops).2 = (KV.run {} ops).2 := by
+  have hcore : ∀ op ∈ ops, op.core = true := by
+    intro op ho; have := hops op ho; cases op <;> simp_all [Op.auto, Op.core]
+  rw [Refine.run_init ops hcore, C01_map_spec ops hops]
+
+/-! The clauses of the statement, on the map: -/
+
+@[simp] theorem KV.addDom_m (x : KV) (k : Key) : (x.addDom k).m = x.m := by unfold KV.addDom; split <;> rfl
+
+/-- after a Set of a non-empty key, Get returns exactly the stored content -/
+theorem C01_get_after_set (s : KV) (k : Key) (c : Nat) (hk : k ≠ "") :
+    ((s.step (.set 0 k c)).1.step (.get 0 k)).2 = .val c := by
+  simp [KV.step, hk]
+/-- … until the key is next written: operations on other keys do not change it -/
+theorem C01_other_key (s : KV) (k k' : Key) (c : Nat) (hne : k' ≠ k) :
+    ((s.step (.set 0 k' c)).1.step (.get 0 k)).2 = (s.step (.get 0 k)).2 ∧
+    ((s.step (.del 0 k')).1.step (.get 0 k)).2 = (s.step (.get 0 k)).2 := by
+  have hne' : k ≠ k' := fun e => hne e.symm
+  constructor
+  · by_cases hk : k' = ""
+    · simp [KV.step, hk]
+    · simp [KV.step, hk, hne']
+  · simp [KV.step, hne']
+/-- after Delete, Get fails with ErrNotFound -/
+theorem C01_get_after_del (s : KV) (k : Key) : ((s.step (.del 0 k)).1.step (.get 0 k)).2 = .err .notFound := by
+  simp [KV.step]
+/-- a Set with an empty key fails with ErrEmptyKey and changes nothing -/
+theorem C01_empty_key (s : KV) (c : Nat) : s.step (.set 0 "" c) = (s, .err .emptyKey) := by simp [KV.step]
+/-- a Get of a never-written key fails with ErrNotFound and changes nothing -/
+theorem C01_missing : (({} : KV).step (.get 0 "k")) = ({}, .err .notFound) := rfl
+/-- GetKeys returns, sorted and without duplicates, exactly the keys for which Get succeeds
+    (given that the key list has no duplicates and covers the map — invariants of `KV.step`) -/
+theorem C01_keys (s : KV) (hnd : s.dom.Nodup) (hdom : ∀ k, (s.m k).isSome → k ∈ s.dom) (ks : List Key)
+    (h : (s.step (.keys 0)).2 = .keys ks) :
+    (∀ k, k ∈ ks ↔ ∃ c, (s.step (.get 0 k)).2 = .val c) ∧ ks.Pairwise (· ≤ ·) ∧ ks.Nodup := by
+  simp only [KV.step, Out.keys.injEq] at h
+  subst h
+  refine ⟨?_, sorted_sortKeys _, nodup_sortKeys _ (List.Nodup.sublist List.filter_sublist hnd)⟩
+  intro k
+  rw [mem_sortKeys, List.mem_filter]
+  simp only [KV.step]
+  cases hm : s.m k with
+  | none => simp
+  | some c => simp [hdom k (by simp [hm])]
+
+example : (KV.run {} [.set 0 "a" 1, .set 0 "" 2, .get 0 "a", .del 0 "a", .get 0 "a", .set 0 "b" 3, .keys 0]).2
+    = [.ok, .err .emptyKey, .val 1, .ok, .err .notFound, .ok, .keys ["b"]] := by decide
+
 end FsDb.C01
